@@ -9,7 +9,9 @@ package main
 //              with the model;
 //   empty-key  witnesses of F05a (an empty tag key defeats the duplicate
 //              suppression of the key writer);
-//   delims     witnesses of F05b ('+', ',', '=' inside keys / values).
+//   delims     witnesses of F05b ('+', ',', '=' inside keys / values);
+//   first-use  two (three) goroutines ask one scope for the same fresh metric at once, all
+//              interleavings over the getters' yield points, four kinds, both reporter flavours.
 
 import (
 	"encoding/json"
@@ -383,6 +385,113 @@ func c05DelimWitnesses(r *Rng, n int) []dCase {
 	return cs
 }
 
+// ---- concurrent first use ----
+//
+// "asking a scope twice for a metric of the same kind and name returns the same metric": the
+// two requests may come from two goroutines at once. The programs and the schedule controller
+// are those of C09 (c09Exec: goroutines over {obtain (kind, name), record, report pass} on one
+// live scope, scheduled over the yield points 51..54 between the probe and the locked re-check
+// of the four getters); the predicate here is C05's own, on pointer identities only: requests
+// with equal (kind, name) got one object, requests that differ in kind or name got different ones.
+
+type c05FirstUseCase struct {
+	Mode string  `json:"mode"` // first-use
+	Case c09Case `json:"first_use"`
+}
+
+func c05FirstUsePredicate(gets []int64) string {
+	type kn struct{ kind, name int64 }
+	objOf := map[kn]int64{}
+	idOf := map[int64]kn{}
+	for i := 0; i+2 < len(gets); i += 3 {
+		k, obj := kn{gets[i], gets[i+1]}, gets[i+2]
+		if prev, ok := objOf[k]; ok && prev != obj {
+			return fmt.Sprintf("one scope was asked more than once for the %s named n%d and returned different metrics (objects %d and %d)",
+				[]string{"counter", "gauge", "timer", "histogram"}[k.kind], k.name, prev, obj)
+		}
+		objOf[k] = obj
+		if prev, ok := idOf[obj]; ok && prev != k {
+			return fmt.Sprintf("requests for (kind %d, n%d) and (kind %d, n%d) returned one metric (object %d)", prev.kind, prev.name, k.kind, k.name, obj)
+		}
+		idOf[obj] = k
+	}
+	return ""
+}
+
+func c05FirstUseOne(ctx *Ctx, c *c09Case) {
+	if c09Deadlocks >= 3 {
+		return
+	}
+	out := c09Exec(c)
+	cc := c05FirstUseCase{Mode: "first-use", Case: *c}
+	cc.Case.Sched = out.Sched
+	raced := ""
+	at := map[int]int64{}
+	for k, i := range out.Sched {
+		if k < len(out.Labels) {
+			at[i] = out.Labels[k]
+		}
+		n := 0
+		for _, l := range at {
+			if l >= 51 && l <= 54 {
+				n++
+			}
+		}
+		if n >= 2 {
+			raced = hashOf(cc)
+		}
+	}
+	ctx.Case(cc, "", fmt.Sprintf("first-use-under-schedule/threads=%d/cached=%v", len(c.Progs)-1, c.Cached), raced)
+	if f := c05FirstUsePredicate(out.Gets); f != "" {
+		ctx.Fail("same_scope_same_kind_and_name_same_metric", f+fmt.Sprintf(" (goroutines %v, executed schedule %v)", c.Progs, out.Sched), cc, out)
+	}
+}
+
+// c05FirstUseStream: all interleavings of two goroutines that each obtain the same fresh
+// (kind, name) and record once, for the four kinds and both reporter flavours (three
+// goroutines in the thorough tier), then random programs.
+func c05FirstUseStream(ctx *Ctx, nrandom int) {
+	for kind := 0; kind < 4; kind++ {
+		for _, cached := range []bool{false, true} {
+			nth := 2
+			if ctx.Thorough() {
+				nth = 3
+			}
+			base := c09Case{Cached: cached}
+			for t := 0; t < nth; t++ {
+				base.Progs = append(base.Progs, []c09Op{{Op: "get", Kind: kind}, {Op: "rec"}})
+			}
+			base.Progs = append(base.Progs, []c09Op{{Op: "pass"}})
+			var rec func(prefix []int, left []int)
+			rec = func(prefix []int, left []int) {
+				done := true
+				for t := range left {
+					if left[t] > 0 {
+						done = false
+						l2 := append([]int(nil), left...)
+						l2[t]--
+						rec(append(append([]int(nil), prefix...), t), l2)
+					}
+				}
+				if done {
+					c := base
+					c.Sched = prefix
+					c05FirstUseOne(ctx, &c)
+				}
+			}
+			left := make([]int, nth)
+			for t := range left {
+				left[t] = 3
+			}
+			rec(nil, left)
+		}
+	}
+	for k := 0; k < nrandom; k++ {
+		c := c09Gen(ctx.R)
+		c05FirstUseOne(ctx, &c)
+	}
+}
+
 func init() {
 	props["C05"] = func(ctx *Ctx) {
 		ctx.Header("DerivCorr")
@@ -396,6 +505,13 @@ func init() {
 				regReplay(ctx, "equal_identities_share_one_scope_distinct_never_merge")
 				return
 			}
+			var fu c05FirstUseCase
+			if json.Unmarshal(ctx.Replay, &fu) == nil && fu.Mode == "first-use" {
+				for k := 0; k < 3 && len(ctx.Res.Failures) == 0; k++ {
+					c05FirstUseOne(ctx, &fu.Case)
+				}
+				return
+			}
 			var c dCase
 			if err := json.Unmarshal(ctx.Replay, &c); err != nil {
 				fatal(err)
@@ -404,6 +520,11 @@ func init() {
 			return
 		}
 		for _, raw := range ctx.CorpusCases() {
+			var fu c05FirstUseCase
+			if json.Unmarshal(raw, &fu) == nil && fu.Mode == "first-use" {
+				c05FirstUseOne(ctx, &fu.Case)
+				continue
+			}
 			var c dCase
 			if json.Unmarshal(raw, &c) == nil && c.Mode != "" {
 				one(&c)
@@ -430,6 +551,8 @@ func init() {
 		// identities keep their own scope also through obtain / Close / obtain-again cycles racing
 		// report passes and each other (schedule-controlled registry scenarios, direct predicate)
 		regCrossStream(ctx, ctx.N(150, 3000), "equal_identities_share_one_scope_distinct_never_merge")
+		// the same metric also when the two requests come from two goroutines at once
+		c05FirstUseStream(ctx, ctx.N(120, 3000))
 		ctx.Note("streams: main (delimiter-free, non-empty keys, sanitizer-fixed inputs), empty-key (F05a witnesses; cases on which the tree deviates from the canonical key are reported as the finding and withheld from the model, which describes the repaired writer), delims (F05b witnesses; the model reproduces the merge)")
 		_ = fmt.Sprint
 	}
